@@ -460,7 +460,9 @@ func (vs *ValidatorStore) GetEndBlockUpdate(ctx *ValidatorContext, req types.Req
 			}
 
 			// delete validator who's power is 0
-			if validator.Power <= 0 {
+			// (the record read above is the previous block's: a validator that has staked
+			// in again since then keeps its record)
+			if cur, err := vs.Get(validator.Address); validator.Power <= 0 && err == nil && cur.Power <= 0 {
 				vKey := append(vs.prefix, validator.Address.Bytes()...)
 				fmt.Println("Deleting :", validator.Address.String())
 				//TODO: validator delete will not properly delete the item because of state implementation
